@@ -37,7 +37,7 @@ ASSUMPTIONS = [
     "seeded search: a clean batch is evidence, not proof",
 ]
 RULE = (
-    "per run: one family member (mlp, mlp_nn, resblock, attn, uu_block, embed_res) with seeded sizes, then 3-12 ops from "
+    "per run: one family member (mlp, mlp_nn, resblock, attn, uu_block, embed_res; seeded sizes) or a generated program (C16 vocabulary), then 3-12 ops from "
     "{derive (any legal chain order over unit_scale / simulate_fp8 / simulate_format lossless|E5M2-nearest|E4M3-SR|srbits / "
     "track_scales / compile[thorough]), call fwd or fwd+bwd, call_original, sync, drop+gc, dynamo reset, failing call "
     "(bad shape / out-of-range index), first-call interruption at line n}; non-trivial = >= 1 derive and >= 1 call; "
@@ -54,8 +54,8 @@ MAX_MODULES = 5
 def phases(tier: str) -> List[Dict[str, Any]]:
     if tier == "quick":
         return [
-            {"name": "nofault", "runs": 288, "heavy": True, "timeout": 240, "wall": 110},
-            {"name": "faults", "runs": 288, "heavy": True, "timeout": 240, "wall": 110},
+            {"name": "nofault", "runs": 224, "heavy": True, "timeout": 240, "wall": 110},
+            {"name": "faults", "runs": 224, "heavy": True, "timeout": 240, "wall": 110},
         ]
     return [
         {"name": "nofault", "runs": 3000, "heavy": True, "timeout": 400, "wall": 1500},
@@ -81,9 +81,11 @@ def _gen_T(r: Any, allow_compile: bool) -> Dict[str, Any]:
 
 def generate(seed: int, tier: str, phase: str) -> Dict[str, Any]:
     r = core.rng(seed, "workload")
-    member = r.choice(MEMBERS)
+    member = r.choice(MEMBERS + ["gen", "gen", "gen"])
     sizes = {"B": r.choice([2, 3, 5]), "T": r.choice([3, 4, 6]), "D": r.choice([4, 8, 12]),
              "H": r.choice([8, 16])}
+    gen_opts = {"vocab": "unitscale", "depth": [1, r.choice([3, 6, 10])],
+                "avoid": ["nn_softmax", "helper_replace", "shared_qkv"]}
     allow_compile = phase == "compile"
     ops: List[Dict[str, Any]] = []
     n = r.choice([3, 4, 5, 6, 8, 10, 12])
@@ -92,7 +94,7 @@ def generate(seed: int, tier: str, phase: str) -> Dict[str, Any]:
     if phase == "faults":
         kinds += ["reset", "bad_call", "interrupt", "interrupt", "bad_call"]
     # swarm: random subset of kinds per run, always derive + call
-    enabled = {k for k in set(kinds) if r.random() < 0.8} | {"derive", "call"}
+    enabled = {k for k in sorted(set(kinds)) if r.random() < 0.8} | {"derive", "call"}
     kinds = [k for k in kinds if k in enabled]
     if r.random() < 0.3 and member != "uu_block":
         # both orders of the same two transforms in one process (I4)
@@ -124,7 +126,7 @@ def generate(seed: int, tier: str, phase: str) -> Dict[str, Any]:
     if phase == "compile" and not any(o.get("T", {}).get("T") == "compile" for o in ops):
         ops.insert(1, {"op": "derive", "src": r.randrange(16), "T": {"T": "compile"}})
         ops.append({"op": "call", "j": 15, "k": 0, "bwd": True, "gseed": 0})
-    return {"phase": phase, "member": member, "sizes": sizes, "mseed": r.randrange(1 << 20),
+    return {"phase": phase, "member": member, "sizes": sizes, "gen_opts": gen_opts, "mseed": r.randrange(1 << 20),
             "key": r.randrange(1 << 30), "ops": ops, "timeout": 300 if phase != "compile" else 900,
             "shrink_budget": 80}
 
@@ -211,7 +213,16 @@ def execute(plan: Dict[str, Any]) -> Dict[str, Any]:
 
     prf = PRFRandint(plan["key"]).install()
     member = plan["member"]
-    spec = family.build(member, plan["mseed"], **plan["sizes"])
+    if member == "gen":
+        # a generated program instead of a fixed family member (same vocabulary as C16,
+        # without the shapes of recorded findings)
+        import random
+
+        from models import proggen
+
+        spec = proggen.generate(random.Random(plan["mseed"]), plan["gen_opts"])
+    else:
+        spec = family.build(member, plan["mseed"], **plan["sizes"])
     original = programs.ProgModule(spec)
     inputs = [programs.make_inputs(spec, 100 + k) for k in range(3)]
     snap0 = tw.state_snapshot(original)
